@@ -121,6 +121,11 @@ def oracle(line: str, obs: Obs):
             if not any(l == "STOPPED" for l in lines):
                 fails.append({"what": "stop() did not return normally", "event": ev[:200],
                               "real": str([l for l in lines if l.startswith(("RAISE", "CRASH"))])})
+            sw = next((kv(l) for l in lines if l.startswith("STOPWAIT ")), None)
+            if sw is not None and not force and int(sw["registered"]) > 0 and int(sw["dt"]) < int(t[2]):
+                fails.append({"what": "stop() stopped waiting before the wait timeout had expired although connections were still "
+                                      "registered (they are closed when their DPA has arrived and their output is flushed, or at the "
+                                      "timeout)", "event": ev[:200], "real": str(sw), "timeout": t[2]})
             lsn = next((kv(l) for l in reversed(lines) if l.startswith("LSN ")), {})
             if lsn.get("open", "0") != "0":
                 fails.append({"what": "a listening socket is still open after stop returned", "event": ev[:200], "real": str(lsn)})
@@ -187,11 +192,14 @@ def scenarios(rng: random.Random, tier: str):
         tmo = rng.choice([1, 2, 3])
         nested = []
         for c, nm in conn_ready:
-            beh = rng.choice(["dpa", "dpa", "never", "eof", "dpa_then_more"])
+            beh = rng.choice(["dpa", "dpa", "never", "eof", "dpa_then_more", "dwa_then_dpa"])
             if beh == "dpa":
                 nested.append(f"rx_{c}_" + nodegen.dpa(n(), n(), nm))
             elif beh == "eof":
                 nested.append(f"eof_{c}")
+            elif beh == "dwa_then_dpa":      # (the answer to a watchdog request sent before the stop arrives first)
+                nested.append(f"rx_{c}_" + nodegen.dwa(n(), n(), nm))
+                nested.append(f"rx_{c}_" + nodegen.dpa(n(), n(), nm))
             elif beh == "dpa_then_more":
                 nested.append(f"rx_{c}_" + nodegen.dpa(n(), n(), nm))
                 nested.append(f"rx_{c}_" + nodegen.dwr(n(), n(), nm))
@@ -211,6 +219,11 @@ def scenarios(rng: random.Random, tier: str):
             nested.append("adv_3")
         evs.append(f"stop {force} {tmo} " + " ".join(nested))
         out.append(CFG.replace("NODE ", f"NODE addrs={rng.choice([1, 1, 2, 3])};") + " | " + " | ".join(evs))
+    # a connection awaiting its DWA when stop() is called; the peer answers in order: DWA, then DPA (also in one read)
+    for tmo in (2, 3):
+        pre = CFG + " | start fail | acc | rx 1 " + nodegen.cer("peer1.x", "4", n(), n()) + " | adv 6"
+        out.append(pre + f" | stop 0 {tmo} rx_1_{nodegen.dwa(n(), n(), 'peer1.x')} rx_1_{nodegen.dpa(n(), n(), 'peer1.x')}")
+        out.append(pre + f" | stop 0 {tmo} rx_1_{nodegen.dwa(n(), n(), 'peer1.x')} adv_1 rx_1_{nodegen.dpa(n(), n(), 'peer1.x')}")
     return out
 
 
